@@ -39,20 +39,27 @@ Proof.
   constructor; [intros [H|[]]; discriminate|]. constructor; [intros []|constructor].
 Qed.
 
-(* L4: a whole sample line of the text exposition - name, sorted label block, value, optional millisecond
-   timestamp - is read back by _parse_sample as exactly that sample.  Hypotheses are about CPython only:
-   the value token floatToGoString produced and the decimal timestamp are plain tokens (token_ok) and
-   int()/float() read them (parse_num ... = Some ...).  Label names and values are ARBITRARY.
-   Partial in one respect: samples whose NAME is not a legacy name are written as {"name",...}; that form is
-   covered by the correspondence and the direct oracle only. *)
-Theorem C03_L4_sample_roundtrip_legacy_name_partial :
+(* L4: a whole sample line of the text exposition - name (bare when legacy, otherwise quoted inside the braces),
+   sorted label block, value, optional millisecond timestamp - is read back by _parse_sample as exactly that sample.
+   Hypotheses are about CPython only: the value token floatToGoString produced and the decimal timestamp are plain
+   tokens (token_ok: no whitespace, underscore, brace, quote or backslash) and int()/float() read them
+   (parse_num ... = Some ...).  The sample NAME, label names and label values are ARBITRARY strings. *)
+Theorem C03_L4_sample_roundtrip :
   forall (NUM : Type) (parse_num parse_float : str -> option NUM) (div1000 : NUM -> res NUM) s nv tsv,
-    is_valid_legacy_metric_name (s_name s) = true ->
     Forall key_ok (map fst (s_labels s)) -> NoDup (map fst (s_labels s)) ->
     token_ok (go_string (s_value s)) -> parse_num (go_string (s_value s)) = Some nv ->
     ts_spec NUM parse_num div1000 s tsv ->
     exists body, text_sample_line s = body ++ [LF] /\
       parse_sample false true NUM parse_num parse_float div1000 true body
       = Ok {| ps_name := s_name s; ps_labels := sort_kv (s_labels s); ps_value := nv; ps_ts := tsv |}.
-Proof. exact text_sample_roundtrip_legacy. Qed.
-Print Assumptions C03_L4_sample_roundtrip_legacy_name_partial.
+Proof. exact text_sample_roundtrip. Qed.
+Print Assumptions C03_L4_sample_roundtrip.
+
+(* non-vacuity: a hostile sample name and hostile labels, value 1e+06, timestamp 1500 ms *)
+Example C03_L4_nonvacuous :
+  let s := {| s_name := [LF; DQ; BS; RBRACE]; s_labels := [([DQ; LF], [BS; DQ; COMMA; RBRACE])];
+              s_value := FFin true (s2l "1000000.0"); s_ts_ms := Some 1500%Z; s_ts_om := None; s_ex := None |} in
+  exists body, text_sample_line s = body ++ [LF] /\
+    parse_sample false true (str) (fun t => Some t) (fun t => Some t) (fun t => Ok t) true body
+    = Ok {| ps_name := s_name s; ps_labels := sort_kv (s_labels s); ps_value := s2l "1e+06"; ps_ts := Some (s2l "1500") |}.
+Proof. cbv zeta. eexists. split; vm_compute; reflexivity. Qed.
